@@ -87,7 +87,12 @@ impl SecpSignature {
         ensures match res { Ok(sg) => valid_sig_scalars(r@, s@) && sg.v@ == (SigV { r: r@, s: s@ }), Err(_) => !valid_sig_scalars(r@, s@) } { unimplemented!() }
     #[verifier::external_body] pub fn r(&self) -> (r: NonZeroScalar) ensures r.v@ == self.v@.r { unimplemented!() }
     #[verifier::external_body] pub fn s(&self) -> (r: NonZeroScalar) ensures r.v@ == self.v@.s { unimplemented!() }
+    // normalize_s: Some(signature with s replaced by n - s) when s is in the upper half of the range, None when it is already low
+    #[verifier::external_body] pub fn normalize_s(&self) -> (r: Option<SecpSignature>)
+        ensures match r { Some(t) => !low_s(self.v@.s) && t.v@ == (SigV { r: self.v@.r, s: sc_neg(self.v@.s) }) && sc_neg(self.v@.s) != self.v@.s, None => low_s(self.v@.s) } { unimplemented!() }
 }
+pub uninterp spec fn low_s(s: Seq<u8>) -> bool;      // s <= n/2
+pub uninterp spec fn sc_neg(s: Seq<u8>) -> Seq<u8>;  // n - s
 impl EcdsaError { #[verifier::external_body] pub fn new() -> (r: EcdsaError) { unimplemented!() } }
 
 // ---- public-key recovery ----
